@@ -172,7 +172,7 @@ static Val run_life(const Val &c)
             cl->write(reqBytes.mid(cut)); cl->flush();
             pumpTill([&]() { return got.size() >= 1000 || cl->state() == QAbstractSocket::UnconnectedState; }, 2000);
             if (server && handler) { server->setHandler(nullptr); delete handler; handler = nullptr; }
-            pumpTill([&]() { return cl->state() == QAbstractSocket::UnconnectedState; }, 4000);
+            pumpTill([&]() { return cl->state() == QAbstractSocket::UnconnectedState; }, 20000);      // returns as soon as the server has closed
             int i = got.indexOf("\r\n\r\n");
             int clPos = got.toLower().indexOf("content-length:");
             if (i > 0 && clPos > 0 && clPos < i) {
